@@ -541,7 +541,8 @@ def phases(log):
             out.append(dict(ev="prepare_heuristic", wc=fx(e["wc"]), tol=fx(e["tol"])))
         elif e["ev"] == "heuristic":
             Wm = e["W"]
-            out.append(dict(ev="heuristic", isid=1 if np.allclose(Wm, np.eye(Wm.shape[0])) else 0))
+            out.append(dict(ev="heuristic", isid=1 if np.allclose(Wm, np.eye(Wm.shape[0])) else 0,
+                            n=int(Wm.shape[0]), W=[fx(v) for v in Wm.reshape(-1)]))
     return out
 
 
@@ -571,7 +572,7 @@ def encode_task(calls):
         elif name == "appendcons":
             ev(name, i=[a[0]])
         elif name == "appendsparsesymmat":
-            ev(name, k=a[0], i=a[1], j=a[2], vals=a[3])
+            ev(name, k=a[0], i=a[1], j=a[2], vals=a[3], x=a[3])
         elif name == "putbaraij":
             ev(name, k=a[0], i=[a[1]], j=a[2], vals=a[3])
         elif name == "putaijlist":
